@@ -359,9 +359,24 @@ def _reference(label, spell):
     return _REF[k]
 
 
+# CRSs known by a non-EPSG authority code, written in several letter cases (each spelling is its own specification)
+AUTH_LABELS = {"auth:ESRI:54009": (-170.0, -75.0, 170.0, 75.0), "auth:ESRI:102008": (-120.0, 25.0, -70.0, 55.0), "auth:ESRI:53009": (-170.0, -75.0, 170.0, 75.0)}
+AUTH_SPELLINGS = ["upper", "lower", "mixed"]
+
+
+def _auth_text(label, spell):
+    code = label.split(":", 1)[1]
+    a, n = code.split(":")
+    return {"upper": a.upper(), "lower": a.lower(), "mixed": a[0].upper() + a[1:].lower()}[spell] + ":" + n
+
+
 def _mk_any(label, spell):
     if label.startswith("utm:"):
         return _mk_utm(label, spell)
+    if label.startswith("auth:"):
+        from odc.geo.crs import CRS
+
+        return CRS(_auth_text(label, spell))
     if label.startswith("like:"):
         from odc.geo.crs import CRS
         from pyproj import CRS as P
@@ -394,6 +409,8 @@ def _lonlat_box(label):
         return (lon0 + 1, -60.0, lon0 + 5, -10.0) if south else (lon0 + 1, 10.0, lon0 + 5, 60.0)
     if label.startswith("like:"):
         return CRS_POOL[LIKE_OF[label]][1]
+    if label.startswith("auth:"):
+        return AUTH_LABELS[label]
     return CRS_POOL[label][1]
 
 
@@ -406,6 +423,8 @@ def _pyproj_of(label):
         return P.from_epsg(int(label.split(":")[1]))
     if label.startswith("like:"):
         return P.from_user_input(LIKE[label])
+    if label.startswith("auth:"):
+        return P.from_user_input(label.split(":", 1)[1])
     return _pyproj(label)
 
 
@@ -436,8 +455,11 @@ def s_history(draw):
     ops = []
     nobj = 0
     for _ in range(n):
-        kind = draw(st.sampled_from(["new", "new", "new", "utm", "burst", "drop", "gc", "tr", "tr", "pickle", "wrap", "epsg", "dropall"]))
-        if kind == "new":
+        kind = draw(st.sampled_from(["new", "new", "new", "utm", "auth", "burst", "drop", "gc", "tr", "tr", "pickle", "wrap", "epsg", "dropall"]))
+        if kind == "auth":
+            ops.append(["new", draw(st.sampled_from(sorted(AUTH_LABELS))), draw(st.sampled_from(AUTH_SPELLINGS))])
+            nobj += 1
+        elif kind == "new":
             lab = draw(st.sampled_from(HIST_LABELS))
             sp = draw(st.sampled_from(SINU_SPELLINGS if lab == "sinu" else SPELLINGS))
             ops.append(["new", lab, sp])
